@@ -59,6 +59,10 @@ def gen(ctx):
     from . import rtgen as R
     for a in R.boundary_update_cases():
         yield Case("RUN", a, tags=("handle-limits",))
+    # the messages as the Datapath handle really builds them (register class incl. the volatile flag, index, value, order):
+    # flows that call set_program with presets and update_field on every kind of variable
+    for _ in range(4000 if ctx.thorough else 400):
+        yield Case("RUN", R.gen_case(rng, n=rng.randrange(2, 10), adversarial=0.0, faults=0.0, stop=0.0), tags=("handle-messages",))
     # exhaustive register table as single updates
     for c in CLASSES:
         for i in range(256):
